@@ -53,9 +53,11 @@ def stock_target(xml, shared=True):
     return dict(args=args, prefix=pre, ns='GEN', schema=xml, fixt=fixt, extra=None, realm=True, shared=shared, second=False)
 
 
-def custom_target(xml_abs, prefix, ns='CU'):
-    """a schema outside the repository (checker self-tests, triage inputs); FIX4.x style, second pass only"""
-    return dict(args=['-s', '-p', prefix, '-n', ns, xml_abs], prefix=prefix, ns=ns, schema=xml_abs, fixt=None, extra=None, realm=True, shared=True, second=True)
+def custom_target(xml_abs, prefix, ns='CU', second=True):
+    """a schema outside the repository (self-made inputs under /verif/triage); second=True: FIX4.2 style without components,
+    second pass only; second=False: both passes (schemas with components)"""
+    return dict(args=(['-s'] if second else []) + ['-p', prefix, '-n', ns, xml_abs], prefix=prefix, ns=ns, schema=xml_abs, fixt=None, extra=None, realm=True,
+                shared=True, second=second)
 
 
 def _gen_root():
